@@ -413,6 +413,37 @@ def _():
 
         return output.strip("\\0").split("\\0")""")
 
+@fix("D17", "fix: refuse to render core metadata when a single-line field contains a line break (header injection)")
+def _():
+    sub("masonry/builders/builder.py",
+        """    def get_metadata_content(self) -> str:
+        content = METADATA_BASE.format(""",
+        """    def get_metadata_content(self) -> str:
+        single_line_values = [
+            self._meta.name,
+            self._meta.version,
+            self._meta.summary,
+            self._meta.keywords,
+            self._meta.author,
+            self._meta.author_email,
+            self._meta.maintainer,
+            self._meta.maintainer_email,
+            self._meta.requires_python,
+            *self._meta.classifiers,
+            *self._meta.provides_extra,
+            *self._meta.requires_dist,
+            *self._meta.project_urls,
+            self._meta.description_content_type,
+        ]
+        for value in single_line_values:
+            if value and ("\\n" in str(value) or "\\r" in str(value)):
+                raise ValueError(
+                    "Invalid metadata: a field value must not contain a line break:"
+                    f" {value!r}"
+                )
+
+        content = METADATA_BASE.format(""")
+
 def main():
     id_ = sys.argv[1]
     msg, f = FIXES[id_]
